@@ -43,6 +43,8 @@ def main():
     for patch in patches:
         n = re.sub(r"\D", "", os.path.basename(patch)) or "1"
         demo = os.path.join(ddir, "demo%s.py" % ("" if n == "1" else n))
+        if "--offset" in sys.argv:
+            n = str(int(n) + int(sys.argv[sys.argv.index("--offset") + 1]))
         scratch = tempfile.mkdtemp(prefix="vfseed.", dir="/tmp")
         try:
             clean = os.path.join(scratch, "clean")
